@@ -12,7 +12,8 @@ git apply -R mutant.diff || exit 9
 T0=$(/venv/bin/python -m pytest -ra -q -p no:cacheprovider --timeout=900 --continue-on-collection-errors 2>&1 | tail -1)
 git apply mutant.diff
 echo "tests without change: $T0"; echo "demo exit with change: $W ; without: $WO"
-case "$T" in *"44 passed"*) ;; *) echo "REJECT: test suite differs"; exit 1;; esac
+A=$(echo "$T" | grep -o "[0-9]* failed, [0-9]* passed"); B=$(echo "$T0" | grep -o "[0-9]* failed, [0-9]* passed")
+[ -n "$A" ] && [ "$A" = "$B" ] || { echo "REJECT: test suite differs ($A vs $B)"; exit 1; }
 [ "$W" != 0 ] && [ "$WO" = 0 ] || { echo "REJECT: demo does not discriminate"; exit 1; }
 D=/verif/seeded/$ID; mkdir -p $D
 cp mutant.diff $D/patch.diff; cp demo.py $D/demo.py; [ -f notes.md ] && cp notes.md $D/notes.md
